@@ -2,7 +2,7 @@
    Only theorem statements closed by `exact`, each followed by Print Assumptions.
    Crypto primitives never appear as axioms: sha256 is an arbitrary 32-byte-valued function, `sign` an arbitrary function,
    the validators' checks are arbitrary predicates `chk` accepting what the signing function produces. *)
-From Packet Require Import Model Spec ReadersProofs EncProofs DecGeneric DecProofs DecData DecInterest EncData EncInterest Roundtrip GenSigners SigProofs.
+From Packet Require Import Model Spec ReadersProofs EncProofs DecGeneric DecProofs DecData DecInterest EncData EncInterest Roundtrip GenSigners SigProofs Tamper.
 Open Scope N_scope.
 Arguments ROk {A}.
 
@@ -80,14 +80,27 @@ Theorem shipped_signers_validate_interest : forall (sha256 : bytes -> bytes), (f
 Proof. exact shipped_interest_validates. Qed.
 Print Assumptions shipped_signers_validate_interest.
 
-(* Tampering, proved part.  Full statement of the property: flipping ANY single bit of the encoded packet inside the
-   signed portion, the signature value or an Interest's parameters makes decoding fail or the validator reject.
-   Proved here: every modification that leaves a well-formed Data with different name / MetaInfo / content / SignatureInfo /
-   signature value — in particular a flipped bit inside a VALUE octet of the signed portion or of the signature — is decoded
-   to a (covered bytes, signature value) pair different from the signed one, so that acceptance would need a second
-   preimage / forgery of the primitive (outside the model).
-   NOT proved (tamper_header_bit_partial): flips that hit a type or length octet and re-shape the TLV tree; they are covered
-   only by the harness's exhaustive single-bit sweep of every generated short packet against the real validators — a test. *)
+(* Tampering, Data: ANY single bit inside the signed portion or the SignatureValue element (type, length and value octets
+   alike; position value_offset .. end of the packet, i.e. everything after the outer Data header).  For every packet
+   MakeData builds with a signer, every such bit i, every reader over the flipped bytes: if the packet still decodes
+   (ReadData returns a Data) then the pair (covered bytes, signature value) handed to a validator differs from the pair
+   that was signed (covered bytes given to the signer, signature it returned) — acceptance needs a forgery of the primitive.
+   No restriction to value octets: the proof runs the parser's invariant on arbitrary bytes (Tamper.parse_data_inv). *)
+Theorem tamper_any_bit_data : forall sign nm cfg content sg si est e sv,
+  data_siginfo sg = Ok (si, est) -> name_ok nm -> meta_wf (meta_of cfg) -> signer_ok sg -> data_fits nm cfg content si est ->
+  0 < est -> make_data sign nm cfg content sg = Ok e -> sign (e_cov e) = Some sv ->
+  forall i, (value_offset (concat (e_wire e)) <= i / 8 < length (concat (e_wire e)))%nat ->
+  forall r, View r (flip_bit (concat (e_wire e)) i) 0 ->
+  forall d' cov', read_data r = ROk d' cov' ->
+    ~ (concat cov' = concat (e_cov e) /\ do_sv (obs_data d') = Some sv).
+Proof. exact tamper_any_bit_read_data_thm. Qed.
+Print Assumptions tamper_any_bit_data.
+
+(* Tampering, well-formed modifications (Data).  Every modification that leaves a well-formed Data with different name /
+   MetaInfo / content / SignatureInfo / signature value is decoded to a (covered bytes, signature value) pair different from
+   the signed one.
+   NOT proved for Interests (tamper_any_bit_interest_partial): single-bit flips of a signed Interest are covered by the
+   harness's exhaustive single-bit sweep of every generated short packet against the real validators — a test. *)
 Theorem tamper_value_byte_detected : forall n m c si sv n' m' c' si' sv',
   name_ok n -> meta_wf m -> opt_si_wf si -> name_ok n' -> meta_wf m' -> opt_si_wf si' ->
   (blen (enc_elems (data_pre n m c si)) + 10 < 9223372036854775808) ->
